@@ -672,8 +672,14 @@ def _make_query(world, rng, n_query, kinds, zero_cell):
     return dict(X=X, ids=ids, truth=truth)
 
 
-def write_query(world, X, cell_ids, gene_names, encoding='dense', name=None):
-    """write another query file into the world's directory; returns its path"""
+def write_query(world, X, cell_ids, gene_names, encoding='dense', name=None, reuse_path=False):
+    """write another query file into the world's directory; returns its path.  reuse_path: overwrite one
+    fixed path (a history: what was read from that path earlier in this process must not matter)"""
+    if reuse_path:
+        path = pathlib.Path(world.workdir) / f"{name or 'query'}_reused.h5ad"
+        if path.exists():
+            path.unlink()
+        return _write_h5ad(path, X, cell_ids, gene_names, encoding=encoding)
     n = next(world._run_counter)
     path = pathlib.Path(world.workdir) / f"{name or 'query'}_{n:04d}.h5ad"
     return _write_h5ad(path, X, cell_ids, gene_names, encoding=encoding)
